@@ -15,8 +15,11 @@ def J(x):
   return json.dumps(x, separators=(',', ':'))
 
 
+E_TYPED = '@Engine("sqlite", type_checking: true);\n'
+
+
 def S(name, text, tables, spec, tags=('C01',), **kw):
-  d = dict(name=name, text=E + text, tables=tables, spec=spec, tags=tuple(tags))
+  d = dict(name=name, text=(E_TYPED if kw.pop('typed', False) else E) + text, tables=tables, spec=spec, tags=tuple(tags))
   d.update(kw)
   return d
 
@@ -371,6 +374,11 @@ ORDER = [
     {'Q': 2},
     {'P': lambda db: _top(db['Q'], lambda r: (-r[0], -r[1]), 1),
      'C': lambda db: [(min(len(db['Q']), 1) or None,)]}, tags=('C18',), ordered=('P',)),
+  # the same with type checking switched on (CheckOrderByClause runs), directions written inside the key strings
+  S('order_desc_typed', 'Q(1, 2); Q(3, 1); Q(2, 5); Q(3, 4); Q(0, 0);\n@OrderBy(P, "col0 desc", "col1");\n@Limit(P, 3);\n'
+    'P(x, y) :- Q(x, y);\nR(x, y) :- P(x, y);\nM(x, y) order_by("col1 desc") limit(2) :- Q(x, y);\nRm(y) :- M(x, y);', {},
+    {'P': lambda db: [(3, 1), (3, 4), (2, 5)], 'R': lambda db: [(3, 1), (3, 4), (2, 5)],
+     'M': lambda db: [(2, 5), (3, 4)], 'Rm': lambda db: [(5,), (4,)]}, tags=('C18',), ordered=('P', 'M'), typed=True),
   S('limit_zero', '@OrderBy(P, "col0", "col1");\n@Limit(P, 0);\nP(x, y) :- Q(x, y);\nR(x) :- P(x, y);\n'
     '@Limit(L0, 0);\nL0(x) :- Q(x, y);\nR0(x) :- L0(x);', {'Q': 2},
     {'P': lambda db: [], 'R': lambda db: [], 'L0': lambda db: [], 'R0': lambda db: []}, tags=('C18',)),
